@@ -1125,6 +1125,6 @@ func init() {
 	register(&propertySpec{
 		ID:      "C03",
 		Explain: "Static data-dependence and edge-deleted reachability rules for the wiring of the query combinators (how and/or/not/pattern/code/empty hand bindings to their sub-queries, which results they keep, when they stop).  Decides that wiring only: which bindings a pattern produces (matching, search), multiset equality with a reference evaluator and the scripts' values are value-level and not decided.",
-		Rules:   []ruleFn{ruleLoopScratch("C03"), ruleQuerySemantics, ruleLoopAlias, ruleReadPure, ruleLoopExhaust("C03"), ruleTermPrepared("C03"), ruleModPure, ruleBindPresence("C03"), ruleQueryPure("C03"), ruleCodeResultMap, ruleTermNumbers("C03")},
+		Rules:   []ruleFn{ruleCodeBindingsOwn("C03"), ruleLoopScratch("C03"), ruleQuerySemantics, ruleLoopAlias, ruleReadPure, ruleLoopExhaust("C03"), ruleTermPrepared("C03"), ruleModPure, ruleBindPresence("C03"), ruleQueryPure("C03"), ruleCodeResultMap, ruleTermNumbers("C03")},
 	})
 }
